@@ -319,7 +319,9 @@ func (c *fsLinClient) burst(b int, bar *spinBarrier) {
 func stressFs(fs filesys.Filesys, isDir bool, k, m int, r *rand.Rand, nextU *int64) []map[string]any {
 	var seq atomic.Int64
 	// sequential setup, logged like everything else
-	setup := &fsLinClient{g: 99, fs: fs, isDir: isDir, seq: &seq, r: r, unit: 3, nextU: nextU, files: map[string]filesys.File{}}
+	// bytes per abstract data unit: appends of 1-2 units are 1 byte ... 8 KiB long (several pages / copy chunks)
+	unit := []int{3, 1, 2500, 4096, 3, 700}[r.IntN(6)]
+	setup := &fsLinClient{g: 99, fs: fs, isDir: isDir, seq: &seq, r: r, unit: unit, nextU: nextU, files: map[string]filesys.File{}}
 	for _, d := range linDirs {
 		d := d
 		setup.call(map[string]any{"op": "mkdir", "d": d}, func() map[string]any { fs.Mkdir(d); return nil })
@@ -330,7 +332,7 @@ func stressFs(fs filesys.Filesys, isDir bool, k, m int, r *rand.Rand, nextU *int
 		us := setup.units(2)
 		setup.ntok++
 		setup.call(map[string]any{"op": "atomiccreate", "d": p[0], "n": p[1], "data": us, "tok": fmt.Sprintf("99.%d", setup.ntok)}, func() map[string]any {
-			fs.AtomicCreate(p[0], p[1], encodeUnits(us, 3))
+			fs.AtomicCreate(p[0], p[1], encodeUnits(us, unit))
 			return nil
 		})
 	}
@@ -340,7 +342,7 @@ func stressFs(fs filesys.Filesys, isDir bool, k, m int, r *rand.Rand, nextU *int
 	var wg sync.WaitGroup
 	start := make(chan struct{})
 	for g := 0; g < k; g++ {
-		clients[g] = &fsLinClient{g: g, fs: fs, isDir: isDir, seq: &seq, r: rand.New(rand.NewPCG(r.Uint64(), 5)), unit: 3, nextU: nextU,
+		clients[g] = &fsLinClient{g: g, fs: fs, isDir: isDir, seq: &seq, r: rand.New(rand.NewPCG(r.Uint64(), 5)), unit: unit, nextU: nextU,
 			files: map[string]filesys.File{}, known: append([][2]string{}, perm...)}
 		wg.Add(1)
 		go func(c *fsLinClient) {
@@ -537,7 +539,16 @@ func C14(c *ev.Ctx) {
 		outFile := filepath.Join(c.Scratch, "hist-"+impl+".ndjson")
 		self, _ := os.Executable()
 		cmd := exec.Command(self, "-child", "stress-fs", fmt.Sprint(c.Seed), impl, fmt.Sprint(nh), fmt.Sprint(c.Pick(12, 20)), c.Scratch, outFile)
-		cout, cerr := cmd.CombinedOutput()
+		couts, cerr, timedOut := runWithDeadline(cmd, time.Duration(c.Pick(6, 30))*time.Minute)
+		cout := []byte(couts)
+		if timedOut {
+			if hangInside(couts, "machine/filesys") {
+				c.Violation("hang-"+impl, "the concurrent driver never finished: an operation of the library is blocked for good (deadlock)\n"+tlc.Tail(couts, 50), map[string]string{"goroutines.txt": couts})
+			} else {
+				c.Inconclusive("stress child (%s) did not finish in time:\n%s", impl, tlc.Tail(couts, 30))
+			}
+			continue
+		}
 		if strings.Contains(string(cout), "fatal error: concurrent map") {
 			c.Violation("crash-"+impl, "the Go runtime aborted the concurrent driver with a concurrent map access inside the library\n"+tlc.Tail(string(cout), 40),
 				map[string]string{"crash.txt": string(cout)})
